@@ -975,6 +975,9 @@ func main() {
 	pairPhase(r, rng)
 	flushFindings(r)
 	lap("dispatch_pairs")
+	agedFamily(r, rng)
+	flushFindings(r)
+	lap("aged_operators")
 
 	stress(r, rng)
 	flushFindings(r)
